@@ -975,12 +975,13 @@ theorem allXs_good (sp : Int) (xr : Int → Int) (c : Nat) :
 
 theorem groupsOf_spec (R : List (Int × Nat)) (hR : IncTells R) (a b c : Nat) (hc : 0 < c) (hb : b ≤ (R.map (·.2)).sum) :
     Grouped c (groupsOf R a b c) ∧
-    flat (groupsOf R a b c) = (rangeList a b c).map (fun f => (locate R f).getD (0, 0)) := by
+    flat (groupsOf R a b c) = (rangeList a b c).map (fun f => (locate R f).getD (0, 0)) ∧
+    (∀ e ∈ (groupsOf R a b c).tail, e.2.headD 0 < c) := by
   have hloc : ∀ f, f < b → locate R f = some ((locate R f).getD (0, 0)) := by
     intro f hf
     obtain ⟨r, hr⟩ := locate_lt R f (by omega)
     simp [hr]
-  have := foldMap_grouped c ((rangeList a b c).map (fun f => (locate R f).getD (0, 0))) [] ⟨by simp, by simp⟩
+  have := foldMap_grouped c ((rangeList a b c).map (fun f => (locate R f).getD (0, 0))) [] ⟨by simp, by simp⟩ (by simp)
     (chain_of_frames R hR c hc (fun f => (locate R f).getD (0, 0)) a b (fun f _ h2 => hloc f h2))
     (by cases (rangeList a b c).map (fun f => (locate R f).getD (0, 0)) with
         | nil => trivial
